@@ -440,3 +440,24 @@ Theorem legacy_continue c ops o s' e rest :
   lstep c (l_final c l_init ops) o = (s', Some (Err e)) ->
   l_run c s' rest = l_run c (l_final c l_init ops) rest.
 Proof. intros H. destruct (legacy_atomic c ops o s' e H) as [Hs _]. rewrite Hs. reflexivity. Qed.
+
+(* ---------------------------------------------------------------- unaffected by other agents *)
+Definition l_names (a : Z) (o : lop) : bool :=
+  match o with LPlace b _ | LMove b _ | LRemove b => b =? a | _ => false end.
+
+Lemma l_track_other c a cur o : l_names a o = false -> l_track c a cur o = cur.
+Proof. destruct o; cbn [l_names l_track]; intros H; try rewrite H; reflexivity. Qed.
+
+Lemma l_track_filter c a ops : forall cur,
+  fold_left (l_track c a) ops cur = fold_left (l_track c a) (filter (l_names a) ops) cur.
+Proof.
+  induction ops as [|o t IH]; intros cur; [reflexivity|]. cbn [fold_left filter].
+  destruct (l_names a o) eqn:E; cbn [fold_left]; [apply IH|].
+  rewrite (l_track_other c a cur o E). apply IH.
+Qed.
+
+(* deleting from a history every operation that does not name agent a (other agents placed, moved, removed;
+   queries building or using the cache) does not change a.pos *)
+Theorem legacy_position_independent c ops a :
+  aget a (l_pos (l_final c l_init ops)) = aget a (l_pos (l_final c l_init (filter (l_names a) ops))).
+Proof. rewrite !legacy_position_last_assigned. apply l_track_filter. Qed.
